@@ -31,8 +31,10 @@ def cases(tier, seed):
 
 def run_case(case):
     import numpy as np
-    from vlib import gen, solve
+    from vlib import gen, solve, purity
+    from bldfm import utils as _u
 
+    point_measurement = purity.guarded(_u.point_measurement, "point_measurement")
     rng = gen.rng_for(case["seed"], "C02", case["idx"])
     even = rng.random() < 0.8
     St, nskip = gen.draw_setup(rng, halo_classes=(case["halo_class"],), even=even, nmax=24)
@@ -67,6 +69,18 @@ def run_case(case):
             for k in range(nl):
                 lhs_f = float(np.sum(q0 * F[k]))
                 lhs_c = float(np.sum(q0 * G[k]))
+                if k == 0:
+                    # the package's own weighted sum (utils.point_measurement), fed the same values in the memory layouts a caller may
+                    # hold them in: C order, Fortran order, a transposed view, a strided view
+                    lay = [q0, np.asfortranarray(q0), np.ascontiguousarray(q0.T).T, np.repeat(q0, 2, axis=1)[:, ::2]][(case["idx"] + len(viol)) % 4]
+                    Fl = [F[k], np.asfortranarray(F[k])][case["idx"] % 2]
+                    pm = float(point_measurement(lay, Fl))
+                    counters["point_measurement_calls"] = counters.get("point_measurement_calls", 0) + 1
+                    epm = abs(pm - lhs_f) / (sa * (float(np.max(np.abs(F[k]))) or 1.0) or 1.0)
+                    resid["point_measurement_vs_weighted_sum"] = max(resid.get("point_measurement_vs_weighted_sum", 0.0), epm)
+                    if epm > (1e-12 if prec == "double" else 1e-6):
+                        viol.append({"what": "point_measurement_is_not_the_weighted_sum", "rel": epm, "source_layout": ["C", "F", "transposed view", "strided view"][(case["idx"] + len(viol)) % 4],
+                                     "point_cell": (im, jm), "source": skind, "setup": desc})
                 sf = sa * max(float(np.max(np.abs(F[k]))), sF) or 1.0
                 sc = sa * max(float(np.max(np.abs(G[k]))), sG) + abs(bg) or 1.0  # the background is stored in the same (rounded) mean mode
                 ef = abs(lhs_f - float(ff[k, jm, im])) / sf
